@@ -124,3 +124,48 @@ Lemma no_outer_transaction_flushes_inside :
   let body := [SBegin; SData (OWrite 0 [x01]); SCommit; SBegin; SData (OWrite 1 [x02]); SCommit] in
   sd_ops 0 body = [OWrite 0 [x01]; OFlush; OWrite 1 [x02]; OFlush] /\ stays_open 1 body = true /\ depth_after 1 body = 1.
 Proof. vm_compute. repeat split. Qed.
+
+(* ---- C32: a storage transaction left open by a failed call ---- *)
+
+(* While the nesting counter stays >= 1 (a `?` early return skipped the matching commit), no later
+   operation ever flushes: whatever is done afterwards, closing (Drop = recovery) or crashing at ANY
+   point brings the file back to the content of the last flush, i.e. all later work is lost. *)
+Theorem leaked_transaction_loses_later_work d0 n later k j :
+  1 <= n -> stays_open n later = true -> wp d0 (sd_ops n later) ->
+  let st := {| data := d0; wal := [] |} in
+  recover walrev_fixed (crash st (trace walrev_fixed st (sd_ops n later)) k j) = {| data := d0; wal := [] |}.
+Proof.
+  intros Hn Hs Hwp st. unfold st.
+  rewrite (recover_from_committed d0 _ k j Hwp). f_equal.
+  apply expect_no_flush. now apply stays_open_no_flush.
+Qed.
+
+(* With the counter back at 0 the next outermost transaction ends with a flush, and after a completed
+   flush the content is committed: reopening yields exactly the final content. *)
+Theorem flushed_work_is_kept d0 ops :
+  wp d0 (ops ++ [OFlush]) ->
+  let st := {| data := d0; wal := [] |} in
+  let fin := run_calls st (trace walrev_fixed st (ops ++ [OFlush])) in
+  recover walrev_fixed fin = {| data := data fin; wal := [] |}.
+Proof.
+  intros Hwp st fin.
+  assert (G0 : Good d0 st) by (exists []; cbn [data wal st]; repeat split; constructor).
+  (* Good is preserved along complete operations; after the final flush the log is empty *)
+  assert (Gen : forall ops' st' d', Good d' st' -> wp (data st') (ops' ++ [OFlush]) ->
+            let f := run_calls st' (trace walrev_fixed st' (ops' ++ [OFlush])) in
+            Good (data f) f).
+  { clear. induction ops' as [|o r IH]; intros st' d' HG Hwp f; subst f.
+    - cbn [app trace]. rewrite app_nil_r. destruct (op_flush d' st' HG) as (_ & G & _). exact G.
+    - cbn [app trace]. rewrite run_calls_app.
+      destruct o as [pos bs|n|].
+      + destruct Hwp as (Hb & Hpos & Hnext).
+        destruct (op_write d' st' pos bs HG Hpos Hb (wp_bound _ _ Hnext)) as (_ & G' & D').
+        apply (IH _ d' G'). rewrite D'. exact Hnext.
+      + destruct Hwp as (Hb & Hnext). pose proof (wp_bound _ _ Hnext) as B. rewrite set_len_length in B.
+        destruct (op_resize d' st' n HG Hb B) as (_ & G' & D').
+        apply (IH _ d' G'). rewrite D'. exact Hnext.
+      + destruct Hwp as (Hb & Hnext). destruct (op_flush d' st' HG) as (_ & G' & D').
+        apply (IH _ _ G'). rewrite D'. exact Hnext. }
+  specialize (Gen ops st d0 G0 Hwp). cbv zeta in Gen. fold fin in Gen.
+  apply good_safe in Gen. exact Gen.
+Qed.
